@@ -424,12 +424,23 @@ func opsOf(kind string) []string {
 
 const tryTail = "echo \"R|\", $st, \"|\"; echo $v; echo \"\\n\";\n"
 
+// visRepeat: the cell being rendered is expected to be denied, so its attempt is repeated
+// (set by buildVisCase; generation is sequential)
+var visRepeat bool
+
+func maybeRepeat(block string) string {
+	if visRepeat {
+		return repeatBlock(block)
+	}
+	return block
+}
+
 func tryDirect(pre, expr, op string) string {
 	body := "$v = " + expr + ";"
 	if op == "write" {
 		body = expr + " = " + fmt.Sprint(written) + "; $v = \"w\";"
 	}
-	return pre + "\n$st = \"denied\"; $v = \"-\";\ntry { " + body + " $st = \"ok\"; } catch (\\Throwable $e) { $st = \"denied\"; }\n" + tryTail
+	return pre + "\n" + maybeRepeat("$st = \"denied\"; $v = \"-\";\ntry { "+body+" $st = \"ok\"; } catch (\\Throwable $e) { $st = \"denied\"; }\n"+tryTail)
 }
 
 func closureDef(pre, expr, op string) string {
@@ -440,7 +451,7 @@ func closureDef(pre, expr, op string) string {
 }
 
 func tryCall(callExpr string) string {
-	return "$st = \"denied\"; $v = \"-\";\ntry { $v = " + callExpr + "; $st = \"ok\"; } catch (\\Throwable $e) { $st = \"denied\"; }\n" + tryTail
+	return maybeRepeat("$st = \"denied\"; $v = \"-\";\ntry { $v = " + callExpr + "; $st = \"ok\"; } catch (\\Throwable $e) { $st = \"denied\"; }\n" + tryTail)
 }
 
 // ---------------------------------------------------------------------------------
@@ -573,6 +584,11 @@ func (fx *Fixture) buildVisCase(vc visCell) *Case {
 	m, p, site := vc.m, vc.path, vc.site
 	name := fx.name(m)
 	t := vc.objClass
+	{
+		a, o := fx.allowed(vc.caller, m)
+		visRepeat = !a && !o
+		defer func() { visRepeat = false }()
+	}
 	// classes of the objects involved
 	oClass := m.level // class of $o
 	thisClass := vc.caller
@@ -740,11 +756,8 @@ func (fx *Fixture) buildVisCase(vc visCell) *Case {
 			}
 			return "", ""
 		}
-		if st == "ok" {
-			return "leak", fmt.Sprintf("%s %s member of the declaring class was %s from %s code (relation %s) through %s", m.mod, m.kind, vc.op, site.name, fx.rel(vc.caller, m.level), p.name)
-		}
-		if st != "denied" {
-			return "fatal", "malformed result line"
+		if cls, why := o.retryVerdict(attempts); cls != "" {
+			return cls, fmt.Sprintf("%s %s member of the declaring class was %s from %s code (relation %s) through %s: %s", m.mod, m.kind, vc.op, site.name, fx.rel(vc.caller, m.level), p.name, why)
 		}
 		if called != "" || a != origA || s != origS {
 			return "effect", fmt.Sprintf("the access was denied but had an effect: called=%q A=%s (want %s) S=%s (want %s)", called, a, origA, s, origS)
